@@ -58,6 +58,7 @@ type lifecycle struct {
 	mon                       []lcMonEvent
 	monTask                   string
 	monSet, monAlive, monBusy bool
+	mon2Step                  int // step at which a second (unrecorded) monitor replaced the recorded one; 0 = never
 	maxAtt                    uint
 	initW, maxW               time.Duration
 	openFailsLeft             int
@@ -733,6 +734,17 @@ func lifecycleHarness(rc *RunCtx) {
 		doOp("close", true)
 		settle(10 * time.Second)
 		afterOpen()
+		if useMon && tp.Intn("setmon2", 3) == 2 {
+			// the application installs another monitor on the transport it has used for a while (whatever state the
+			// first monitor's runner is in by now): that call returns, and the transport's API keeps answering
+			rc.Fault("second-SetMonitor-after-a-history")
+			lc.mon2Step = s.Step
+			tr.SetMonitor(&frugal.BaseFTransportMonitor{MaxReopenAttempts: 0})
+			opLog = append(opLog, "SetMonitor#2")
+			tr.IsOpen()
+			tr.Close()
+			settle(time.Second)
+		}
 		finished = true
 	})
 
@@ -819,6 +831,9 @@ func lifecycleHarness(rc *RunCtx) {
 	for _, e := range lc.epochs {
 		if !e.streamClosed || !alive || poisoned {
 			continue
+		}
+		if lc.mon2Step > 0 && e.closedStep >= lc.mon2Step {
+			continue // closes from here on are the second monitor's business, which records nothing
 		}
 		if !e.watched || len(e.values) != 1 {
 			poisoned = true
